@@ -49,6 +49,9 @@ type HeapRoot struct {
 }
 type GlobalRoot struct{ G *ssa.Global }
 type ValueRoot struct{ V Term } // read-only detached aggregate
+// FreeRoot: a captured variable of a function literal that is verified on its own (its value at the time of the call is
+// arbitrary; what the literal writes to it is visible to later reads inside the literal only)
+type FreeRoot struct{ FV *ssa.FreeVar }
 
 type PathElem struct {
 	Field int    // >=0: struct field index
@@ -78,6 +81,7 @@ type State struct {
 	heap  map[string]string
 	ghost map[string]string
 	dead  bool
+	free  map[*ssa.FreeVar]Value // captured variables (function literals verified as units)
 	// epoch: set when the whole heap was havocked (a callee without a frame, a loop that may write anything).
 	// Components that are first read afterwards get a symbol of that epoch, not their initial value.
 	epoch string
@@ -93,6 +97,12 @@ func (s *State) clone() *State {
 	}
 	for k, v := range s.ghost {
 		n.ghost[k] = v
+	}
+	if s.free != nil {
+		n.free = make(map[*ssa.FreeVar]Value, len(s.free))
+		for k, v := range s.free {
+			n.free[k] = v
+		}
 	}
 	return n
 }
@@ -122,6 +132,7 @@ type Frame struct {
 	top      bool
 	contract *Contract
 	entry    *State // state at function entry (for old())
+	prevSt   *State // state at the head of the loop iteration being closed (for prev() in atback clauses)
 	params   map[string]Value
 	rets     []retInfo
 	loops    map[*ssa.BasicBlock]*loopInfo
@@ -289,6 +300,11 @@ func (ex *Exec) rootLoad(st *State, l Location) Value {
 		return Term{S: ex.globalGet(st, r.G), T: l.RT}
 	case ValueRoot:
 		return r.V
+	case FreeRoot:
+		if v, ok := st.free[r.FV]; ok {
+			return v
+		}
+		panic(unsupported("captured variable " + r.FV.Name() + " has no value on this path"))
 	}
 	panic(unsupported(fmt.Sprintf("load root %T", l.Root)))
 }
@@ -305,6 +321,11 @@ func (ex *Exec) rootStore(st *State, l Location, v Value) {
 		comp := "G:" + relPkgPath(r.G.Pkg.Pkg) + "." + r.G.Name()
 		ex.globalGet(st, r.G)
 		st.heap[comp] = ex.asTerm(v, l.RT).S
+	case FreeRoot:
+		if st.free == nil {
+			st.free = map[*ssa.FreeVar]Value{}
+		}
+		st.free[r.FV] = v
 	default:
 		panic(unsupported("store through a detached slice element (aliasing not modelled)"))
 	}
